@@ -1865,6 +1865,13 @@ class Entity(Instance):
     def write(self) -> TextBlock:
         assert self._arch is not None
 
+        # the entity is declared with its own name (it is part of the interface of the design
+        # and cannot be renamed like local objects)
+        assert (
+            _is_valid_identifier(self._name)
+            and self._name.lower() not in ModuleScope._vhdl_reserved
+        ), f"invalid entity name '{self._name}' (reserved word or not a valid VHDL identifier)"
+
         return TextBlock(
             [
                 self._library_declaration(),
